@@ -11,21 +11,112 @@ open DnsVerif DnsVerif.Rearr DnsVerif.Spec
 /-- one past the last address -/
 def TOP : Nat := 2 ^ 128
 
-/-- numeric sort key of the comparator `pointLt` (valid for mask lengths ≤ 255): address first; at
-one address stops before starts, stops by descending and starts by ascending mask length -/
+/-- the in-address sort key of an end point with mask length `len`: end points at one address are
+ordered by `rangeFrom`, innermost first; for CIDR blocks ending at one address that is the order of
+descending prefix length, with the implicit IPv4 null range (mask length 0, it starts at
+`::ffff:0:0` = `afterIPv4 - 2^32`) in the place of a /96 — after a declared `0.0.0.0/0` if there were
+both -/
+def ekey (len : Nat) : Nat := if len = 0 then 2 * (255 - 96) + 1 else 2 * (255 - len)
+
+theorem ekey_lt (len : Nat) : ekey len < 512 := by
+  unfold ekey; split <;> omega
+
+/-- comparing two end keys: the arithmetic form -/
+theorem ekey_lt_iff {l l' : Nat} (hl : l ≤ 255) (hl' : l' ≤ 255) :
+    ekey l < ekey l' ↔ (l ≠ 0 ∧ l' ≠ 0 ∧ l' < l) ∨ (l = 0 ∧ l' ≠ 0 ∧ l' < 96) ∨ (l' = 0 ∧ 96 ≤ l) := by
+  unfold ekey
+  by_cases h : l = 0 <;> by_cases h' : l' = 0 <;>
+    simp only [h, h', if_true, if_false, ne_eq, not_true_eq_false, not_false_eq_true, true_and,
+      false_and, and_false, or_false, false_or] <;> omega
+
+/-- numeric sort key of the comparator `pointLt` (valid for mask lengths ≤ 255 and well-formed end
+points, `PtOK`): address first; at one address stops before starts, stops innermost first (`ekey`)
+and starts by ascending mask length -/
 def rank (p : Point) : Nat :=
   p.ip * 1024 + (match p.kind with
-    | .stop => 255 - p.maskLen
+    | .stop => ekey p.maskLen
     | .start => 512 + p.maskLen)
 
-theorem pointLt_iff_rank (a b : Point) (ha : a.maskLen ≤ 255) (hb : b.maskLen ≤ 255) :
+/-- the effective prefix length of an end point -/
+def effLen (len : Nat) : Nat := if len = 0 then 96 else len
+
+/-- an end point is the end of a CIDR block of its mask length, or, with mask length 0, the end of
+the IPv4 range -/
+def PtOK (p : Point) : Prop :=
+  p.kind = .stop → (p.maskLen = 0 → p.ip = afterIPv4) ∧ p.maskLen ≤ 128 ∧ 2 ^ (128 - effLen p.maskLen) ≤ p.ip
+
+theorem rangeFromOf_eq {p : Point} (h : PtOK p) (hk : p.kind = .stop) :
+    rangeFromOf p = p.ip - 2 ^ (128 - effLen p.maskLen) := by
+  obtain ⟨h0, _, _⟩ := h hk
+  unfold rangeFromOf effLen
+  by_cases hz : p.maskLen = 0
+  · rw [if_pos hz, if_pos hz, h0 hz]; decide
+  · rw [if_neg hz, if_neg hz]
+
+theorem pow_cmp {e e' : Nat} (he : e ≤ 128) (he' : e' ≤ 128) :
+    ((2 : Nat) ^ (128 - e) < 2 ^ (128 - e') ↔ e' < e) ∧ ((2 : Nat) ^ (128 - e) = 2 ^ (128 - e') ↔ e = e') := by
+  constructor
+  · rw [Nat.pow_lt_pow_iff_right (by omega : 1 < 2)]; omega
+  · constructor
+    · intro h
+      have h1 := (Nat.pow_le_pow_iff_right (by omega : 1 < 2)).1 (Nat.le_of_eq h)
+      have h2 := (Nat.pow_le_pow_iff_right (by omega : 1 < 2)).1 (Nat.le_of_eq h.symm)
+      omega
+    · intro h; rw [h]
+
+theorem ekey_eff (m n : Nat) (hm : m ≤ 128) (hn : n ≤ 128) :
+    (ekey m < ekey n ↔ effLen n < effLen m ∨ (effLen m = effLen n ∧ n < m)) ∧
+      effLen m ≤ 128 ∧ effLen n ≤ 128 := by
+  unfold ekey effLen
+  by_cases h : m = 0 <;> by_cases h' : n = 0 <;> simp only [h, h', if_true, if_false] <;> omega
+
+/-- two end points at one address: the comparator's order is the order of the end keys -/
+theorem stop_cmp (ip m n : Nat) (hm : m ≤ 128) (hn : n ≤ 128) (pa : 2 ^ (128 - effLen m) ≤ ip)
+    (pb : 2 ^ (128 - effLen n) ≤ ip) :
+    (if ip - 2 ^ (128 - effLen m) ≠ ip - 2 ^ (128 - effLen n)
+      then decide (ip - 2 ^ (128 - effLen m) > ip - 2 ^ (128 - effLen n)) else decide (m > n)) =
+    decide (ekey m < ekey n) := by
+  obtain ⟨hk, ea, eb⟩ := ekey_eff m n hm hn
+  obtain ⟨c1, c2⟩ := pow_cmp ea eb
+  generalize effLen m = e at *
+  generalize effLen n = e' at *
+  generalize 2 ^ (128 - e) = x at *
+  generalize 2 ^ (128 - e') = y at *
+  have hsub : ip - x = ip - y ↔ x = y := by omega
+  have hsub' : ip - x > ip - y ↔ x < y := by
+    constructor
+    · intro h; omega
+    · intro h; exact Nat.sub_lt_sub_left (Nat.lt_of_lt_of_le h pb) h
+  by_cases hxy : x = y
+  · rw [if_neg (fun hn => hn (hsub.2 hxy)), decide_eq_decide, hk]
+    have := c2.1 hxy
+    omega
+  · rw [if_pos (fun hn => hxy (hsub.1 hn)), decide_eq_decide, hsub', c1, hk]
+    have : e ≠ e' := fun h => hxy (c2.2 h)
+    omega
+
+theorem pointLt_iff_rank (a b : Point) (ha : a.maskLen ≤ 255) (hb : b.maskLen ≤ 255)
+    (hoa : PtOK a) (hob : PtOK b) :
     pointLt a b = decide (rank a < rank b) := by
-  unfold pointLt rank
-  cases hka : a.kind <;> cases hkb : b.kind <;> by_cases hip : a.ip = b.ip <;>
-    simp only [hip, ne_eq, not_true_eq_false, not_false_eq_true, if_true, if_false, reduceCtorEq,
-      decide_true, decide_false] <;>
-    (try rw [decide_eq_decide]) <;> (try rw [eq_comm, decide_eq_true_iff]) <;>
-    (try rw [eq_comm, decide_eq_false_iff_not]) <;> omega
+  have ka := ekey_lt a.maskLen
+  have kb := ekey_lt b.maskLen
+  by_cases hstop : a.ip = b.ip ∧ a.kind = .stop ∧ b.kind = .stop
+  · -- two end points at one address
+    obtain ⟨hip, hka, hkb⟩ := hstop
+    obtain ⟨_, la, pa⟩ := hoa hka
+    obtain ⟨_, lb, pb⟩ := hob hkb
+    unfold pointLt rank
+    rw [rangeFromOf_eq hoa hka, rangeFromOf_eq hob hkb, hka, hkb, hip]
+    rw [hip] at pa
+    simp only [ne_eq, not_true_eq_false, if_false, reduceCtorEq]
+    rw [stop_cmp b.ip a.maskLen b.maskLen la lb pa pb, decide_eq_decide]
+    omega
+  · unfold pointLt rank
+    cases hka : a.kind <;> cases hkb : b.kind <;> by_cases hip : a.ip = b.ip <;>
+      simp only [hip, hka, hkb, ne_eq, not_true_eq_false, not_false_eq_true, if_true, if_false,
+        reduceCtorEq, decide_true, decide_false, and_true, and_false] at hstop ⊢ <;>
+      (try rw [decide_eq_decide]) <;> (try rw [eq_comm, decide_eq_true_iff]) <;>
+      (try rw [eq_comm, decide_eq_false_iff_not]) <;> omega
 
 /-- the database key of a range point, as a pair: address, and the mask-length byte that
 `pointKV` writes (0 for a null location) -/
